@@ -1243,7 +1243,13 @@ func (g *Gen) obsSpec() *ObsSpec {
 			o.UnregSelf = true
 		} else {
 			o.UnregOther = R.Intn(max(1, g.P.ObsSlots))
+			if R.Chance(50) {
+				// ... and a new observer takes a free slot in the same callback
+				o.RegNext = 1 + R.Intn(max(1, g.P.ObsSlots))
+			}
 		}
+	} else if g.P.UnregInCbPct > 0 && R.Chance(g.P.UnregInCbPct/2) {
+		o.RegNext = 1 + R.Intn(max(1, g.P.ObsSlots))
 	}
 	return o
 }
